@@ -134,8 +134,17 @@ def _simple_generator(h):
 
 def _inlinable(h, generator=False):
     node = h.node
-    if any(d not in ("staticmethod",) for d in h.decorators):
+    if any(d not in ("staticmethod", "classmethod") for d in h.decorators):
         return False
+    if "classmethod" in h.decorators:
+        # `cls.x` read through the instance means the same thing; a store on the class does not
+        first = h.params[0] if h.params else None
+        for n in ast.walk(node):
+            if isinstance(n, ast.Attribute) and isinstance(n.ctx, (ast.Store, ast.Del)) and isinstance(n.value, ast.Name) and n.value.id == first:
+                return False
+            if isinstance(n, ast.Name) and n.id == first and not (isinstance(getattr(n, "_parent", None), ast.Attribute)):
+                if getattr(n, "_parent", None) is not None:
+                    return False  # the class object itself is used (cls(...), passed on)
     a = node.args
     if a.kwarg or a.kwonlyargs or a.posonlyargs:
         return False
